@@ -205,6 +205,13 @@ pub enum SnapFmt {
     /// serialised into a `serde_json::Value` document and its bytes; the bytes are read back into a
     /// `Value` and the generator is deserialised from that (keys arrive owned and in sorted order)
     JsonValue,
+    /// a self-describing format that is NOT human-readable (`is_human_readable() == false` at every level, as
+    /// MessagePack / CBOR / BSON report; see nhr.rs), directly and with the generator embedded through
+    /// `#[serde(flatten)]` / an internally tagged / an untagged enum (serde's buffers always answer `true`)
+    CompactValue,
+    CompactFlatten,
+    CompactTagged,
+    CompactUntagged,
     /// bincode with its own default `Options` (`bincode::options()`): variable-length integers, where signed
     /// and unsigned values are encoded differently (zig-zag)
     BincodeVarint,
@@ -638,6 +645,10 @@ macro_rules! m_snap {
                 SnapFmt::JsonReader => Some(serde_json::to_vec_pretty($s).expect("json serialize")),
                 SnapFmt::JsonValue => Some(serde_json::to_vec(&serde_json::to_value($s).expect("json to_value")).expect("json serialize")),
                 SnapFmt::Toml => toml::to_string($s).ok().map(|t| t.into_bytes()),
+                SnapFmt::CompactValue => Some(crate::nhr::to_vec($s).expect("compact serialize")),
+                SnapFmt::CompactFlatten => Some(crate::nhr::to_vec(&Flat { step: 3, rng: $s, tail: 7 }).expect("compact serialize")),
+                SnapFmt::CompactTagged => Some(crate::nhr::to_vec(&Tagged::Gen($s)).expect("compact serialize")),
+                SnapFmt::CompactUntagged => Some(crate::nhr::to_vec(&Untagged::Gen($s)).expect("compact serialize")),
                 SnapFmt::BincodeVarint => {
                     use bincode::Options;
                     Some(bincode::options().serialize($s).expect("bincode serialize"))
@@ -684,6 +695,18 @@ macro_rules! m_restore {
                 SnapFmt::JsonReader => serde_json::from_reader(ShortReader { data: $bytes, pos: 0 }).map_err(|e| e.to_string()),
                 SnapFmt::JsonValue => serde_json::from_slice::<serde_json::Value>($bytes).and_then(serde_json::from_value).map_err(|e| e.to_string()),
                 SnapFmt::Toml => toml::from_str(std::str::from_utf8($bytes).map_err(|e| e.to_string())?).map_err(|e| e.to_string()),
+                SnapFmt::CompactValue => crate::nhr::from_slice($bytes),
+                SnapFmt::CompactFlatten => crate::nhr::from_slice::<Flat<$t>>($bytes).and_then(|f| {
+                    if f.step == 3 && f.tail == 7 { Ok(f.rng) } else { Err("the embedding struct's own fields came back changed".to_string()) }
+                }),
+                SnapFmt::CompactTagged => crate::nhr::from_slice::<Tagged<$t>>($bytes).and_then(|f| match f {
+                    Tagged::Gen(g) => Ok(g),
+                    _ => Err("the other variant came back".to_string()),
+                }),
+                SnapFmt::CompactUntagged => crate::nhr::from_slice::<Untagged<$t>>($bytes).and_then(|f| match f {
+                    Untagged::Gen(g) => Ok(g),
+                    _ => Err("the other variant came back".to_string()),
+                }),
                 SnapFmt::BincodeVarint => {
                     use bincode::Options;
                     bincode::options().deserialize($bytes).map_err(|e| e.to_string())
@@ -733,11 +756,35 @@ macro_rules! construct_m {
                 $okc(wrap(if call_generic() { <$t as SeedableRng>::from_seed(s) } else { <$t>::from_seed(s) }), None)
             }
             SeedSpec::U64(x) => $okc(wrap(if call_generic() { <$t as SeedableRng>::seed_from_u64(*x) } else { <$t>::seed_from_u64(*x) }), None),
+            SeedSpec::FromRng(src) if src.key % 4 == 1 => {
+                // every fourth source is handed over as a zero-sized HANDLE (the state lives elsewhere)
+                let mut h = crate::seams::source::HandleSource::park(SimSource::new(src.clone()));
+                let g = if call_generic() { <$t as SeedableRng>::from_rng(&mut h) } else { <$t>::from_rng(&mut h) };
+                let s = h.unpark();
+                let rep = SourceReport { pos: s.pos, calls: s.calls, log: s.log, fired: false };
+                $okc(wrap(g), Some(rep))
+            }
             SeedSpec::FromRng(src) => {
                 let mut s = SimSource::new(src.clone());
                 let g = if call_generic() { <$t as SeedableRng>::from_rng(&mut s) } else { <$t>::from_rng(&mut s) };
                 let rep = SourceReport { pos: s.pos, calls: s.calls, log: s.log, fired: false };
                 $okc(wrap(g), Some(rep))
+            }
+            SeedSpec::TryFromRng(src) if src.fault.as_ref().map(|f| f.token % 3 == 1).unwrap_or(src.key % 3 == 1) => {
+                // every third fallible source is a zero-sized handle
+                let mut h = crate::seams::source::HandleFallible::park(FallibleSource::new(src.clone()));
+                let r = if call_generic() { <$t as SeedableRng>::try_from_rng(&mut h) } else { <$t>::try_from_rng(&mut h) };
+                let s = h.unpark();
+                let rep = SourceReport {
+                    pos: s.inner.pos,
+                    calls: s.inner.calls,
+                    log: s.inner.log,
+                    fired: s.fired,
+                };
+                match r {
+                    Ok(g) => $okc(wrap(g), Some(rep)),
+                    Err(e) => $errc(e.0, rep),
+                }
             }
             SeedSpec::TryFromRng(src) if src.fault.as_ref().map(|f| f.token % 3 == 0).unwrap_or(src.key % 3 == 0) => {
                 // every third fallible source has an error type of size zero (a unit struct): the token is
@@ -1318,6 +1365,16 @@ pub fn restore_core(kind: CoreKind, fmt: SnapFmt, bytes: &[u8]) -> Result<Box<dy
                 SnapFmt::JsonReader => serde_json::from_reader(ShortReader { data: bytes, pos: 0 }).map_err(|e| e.to_string()),
                 SnapFmt::JsonValue => serde_json::from_slice::<serde_json::Value>(bytes).and_then(serde_json::from_value).map_err(|e| e.to_string()),
                 SnapFmt::Toml => toml::from_str(std::str::from_utf8(bytes).map_err(|e| e.to_string())?).map_err(|e| e.to_string()),
+                SnapFmt::CompactValue => crate::nhr::from_slice(bytes),
+                SnapFmt::CompactFlatten => crate::nhr::from_slice::<Flat<T>>(bytes).map(|f| f.rng),
+                SnapFmt::CompactTagged => crate::nhr::from_slice::<Tagged<T>>(bytes).and_then(|f| match f {
+                    Tagged::Gen(g) => Ok(g),
+                    _ => Err("the other variant came back".to_string()),
+                }),
+                SnapFmt::CompactUntagged => crate::nhr::from_slice::<Untagged<T>>(bytes).and_then(|f| match f {
+                    Untagged::Gen(g) => Ok(g),
+                    _ => Err("the other variant came back".to_string()),
+                }),
                 SnapFmt::BincodeVarint => {
                     use bincode::Options;
                     bincode::options().deserialize(bytes).map_err(|e| e.to_string())
@@ -1409,6 +1466,107 @@ impl DynGen for SharedCoreGen {
     }
     fn debug(&self) -> (String, String) {
         self.core.debug()
+    }
+    fn as_any(&self) -> &dyn Any {
+        self
+    }
+}
+
+
+/// Birthday search for a lossy `==` on a type whose states cannot be manufactured (HC-128: no serde, no
+/// public fields): `m` generators from the seeds `seed_of(i)`, each advanced by `pre` words, every pair compared
+/// with the operator. Returns the first pair that compares equal.
+pub fn hc128_equal_pair(seed_of: &dyn Fn(usize) -> [u8; 32], m: usize, pre: u32) -> Result<Option<(usize, usize)>, SutFail> {
+    guard(|| {
+        let gens: Vec<rand_hc::Hc128Rng> = (0..m)
+            .map(|i| {
+                let mut g = rand_hc::Hc128Rng::from_seed(seed_of(i));
+                for _ in 0..pre {
+                    g.next_u32();
+                }
+                g
+            })
+            .collect();
+        for i in 0..m {
+            for j in i + 1..m {
+                if gens[i] == gens[j] {
+                    return Some((i, j));
+                }
+            }
+        }
+        None
+    })
+}
+
+
+/// Block-by-block text comparison of two HC-128 cores with different keys: after EVERY generate() the
+/// `{:?}` texts must be byte-equal (a text that depends on what one block left in the tables is visible for
+/// exactly one block). Returns (blocks generated, text a, text b) at the first difference.
+pub fn hc128_core_block_texts(seed_a: [u8; 32], seed_b: [u8; 32], blocks: u64) -> Result<Option<(u64, String, String)>, SutFail> {
+    guard(|| {
+        use std::fmt::Write;
+        let mut a = rand_hc::Hc128Core::from_seed(seed_a);
+        let mut b = rand_hc::Hc128Core::from_seed(seed_b);
+        let mut ra: <rand_hc::Hc128Core as BlockRngCore>::Results = Default::default();
+        let mut rb: <rand_hc::Hc128Core as BlockRngCore>::Results = Default::default();
+        let (mut ta, mut tb) = (String::with_capacity(96), String::with_capacity(96));
+        for k in 0..blocks {
+            a.generate(&mut ra);
+            b.generate(&mut rb);
+            ta.clear();
+            tb.clear();
+            let _ = write!(ta, "{:?}", a);
+            let _ = write!(tb, "{:?}", b);
+            if ta != tb {
+                return Some((k + 1, ta, tb));
+            }
+        }
+        None
+    })
+}
+
+
+/// The real-clock constructor as a C19 instance: `JitterRng::new()` ran when the instance was built, and the
+/// only thing that can be compared about it is whether it succeeded (what it would produce is the machine's
+/// business). Every output call returns that verdict.
+pub struct RealClockProbe {
+    pub ok: bool,
+}
+impl DynGen for RealClockProbe {
+    fn kind(&self) -> Kind {
+        Kind::Jitter
+    }
+    fn next_u32(&mut self) -> u32 {
+        1 + self.ok as u32
+    }
+    fn next_u64(&mut self) -> u64 {
+        1 + self.ok as u64
+    }
+    fn fill_bytes(&mut self, dest: &mut [u8]) {
+        for b in dest.iter_mut() {
+            *b = 1 + self.ok as u8;
+        }
+    }
+    fn boxed_clone(&self) -> Box<dyn DynGen> {
+        Box::new(RealClockProbe { ok: self.ok })
+    }
+    fn clone_from_dyn(&mut self, _src: &dyn DynGen) -> bool {
+        false
+    }
+    fn eq_dyn(&self, _other: &dyn DynGen) -> Option<bool> {
+        None
+    }
+    fn jump(&mut self) -> bool {
+        false
+    }
+    fn long_jump(&mut self) -> bool {
+        false
+    }
+    fn snapshot(&self, _fmt: SnapFmt) -> Option<Vec<u8>> {
+        None
+    }
+    fn debug(&self) -> (String, String) {
+        (String::new(), String::new())
     }
     fn as_any(&self) -> &dyn Any {
         self
